@@ -13,6 +13,8 @@ TrNewOpen == /\ IsEvent("bnew") /\ Consume /\ exists          \* the size argume
 TrWrite == /\ IsEvent("bw") /\ Consume /\ exists
            /\ AWrite(Ev.data) /\ res' = Ev.res /\ Ev.tail = 1
            /\ UNCHANGED <<exists, nh>>
+(* a write whose length cannot fit whatever the queue holds (top of the psize range): appends nothing, returns 0 *)
+TrWriteHuge == /\ IsEvent("bwhuge") /\ Consume /\ exists /\ Ev.res = 0 /\ Ev.tail = 1 /\ res' = 0 /\ UNCHANGED <<cap, q, out, exists, nh>>
 TrRead == /\ IsEvent("br") /\ Consume /\ exists
           /\ ARead(Ev.len) /\ res' = Ev.res /\ out' = Ev.data /\ Ev.clean = 1 /\ Ev.tail = 1
           /\ UNCHANGED <<exists, nh>>
@@ -25,6 +27,6 @@ TrFree == /\ IsEvent("bfree") /\ Consume /\ exists
           /\ UNCHANGED avars
 TrReset == /\ IsEvent("Reset") /\ Consume
            /\ cap' = CapC /\ q' = <<>> /\ res' = 0 /\ out' = <<>> /\ exists' = FALSE /\ nh' = 0
-TNext == TrNewCreate \/ TrNewOpen \/ TrWrite \/ TrRead \/ TrClear \/ TrSpace \/ TrFree \/ TrReset
+TNext == TrNewCreate \/ TrNewOpen \/ TrWrite \/ TrWriteHuge \/ TrRead \/ TrClear \/ TrSpace \/ TrFree \/ TrReset
 TSpec == TInit /\ [][TNext]_tvars
 ====
